@@ -1,4 +1,4 @@
-import common, p_vxbase
+import common, p_vxbase, cli_cfg
 
 ASSUME = ["select! start indices are covered through the listed seeds (an enumerated, not provably complete, set); the engine reports how many scripts' stored bytes differed between seeds",
           "the two compressor OS threads run free; each stream's requests are FIFO on one channel and files are not shared",
@@ -6,6 +6,10 @@ ASSUME = ["select! start indices are covered through the listed seeds (an enumer
 
 def run(prop, tier):
     r = common.run_vx("c08", tier)
+    # model_checking keys: states = distinct stored outcomes, transitions = executions
+    r["states"] = max(1, r.get("extra", {}).get("stored_outcome_hashes_set_count", 1))
+    r["transitions"] = r.get("evaluations", 1)
+    cli_cfg.merge(r, prop, tier)
     return r, ASSUME
 
 def replay(prop, path):
